@@ -73,7 +73,7 @@ fn build(ch: &mut Chooser, fmt: &str) -> (Vec<u8>, Meta, Vec<(String, String)>) 
                 b.defined_names.push((n.clone(), v.clone()));
                 expn.push((n.clone(), v));
             }
-            let e = xlsx::XEnc { prefix: ch.flag("xlsx.prefix"), ..Default::default() };
+            let e = xlsx::XEnc { prefix: ch.flag("xlsx.prefix"), indent: ch.flag("xlsx.indented"), ..Default::default() };
             (xlsx::write(&b, &e), m, expn)
         }
         "xlsb" => {
@@ -130,6 +130,7 @@ fn build(ch: &mut Chooser, fmt: &str) -> (Vec<u8>, Meta, Vec<(String, String)>) 
         _ => {
             let mut b = ods::OBook::default();
             b.named_name_last = ch.flag("ods.named-range-name-attribute-last");
+            b.indent = ch.flag("ods.document-indented");
             for s in &m.sheets {
                 b.sheets.push(ods::OSheet { name: s.name.clone(), rows: vec![ods::ORow { cells: vec![(ods::OCell::new(ods::OVal::Float("1".into(), "float")), 1)], repeat: 1 }], display: match s.vis { SheetVisible::Visible => if ch.flag("ods.explicit-display-true") { Some(true) } else { None }, _ => Some(false) } });
             }
